@@ -724,6 +724,14 @@ func (e *Eng) applyContract(con *Contract, fi *FuncInfo, name string, recv *Val,
 	}
 	pre := c.st.clone()
 	detRes, haveDet := e.detCallResult(con, fi, name, env, resT, c)
+	if c.spec && !(con.Pure || con.Effect == "pure") {
+		// a contract expression naming a deterministic function denotes its result
+		// (an uninterpreted function of the declared inputs); it has no effects here
+		if haveDet {
+			return detRes
+		}
+		panic("spec: call to " + name + ", which is neither pure nor declared deterministic")
+	}
 	// effects
 	switch {
 	case con.Pure || con.Effect == "pure":
@@ -740,6 +748,18 @@ func (e *Eng) applyContract(con *Contract, fi *FuncInfo, name string, recv *Val,
 	}
 	for _, it := range con.Assigns {
 		e.havocItem(it, con, fi, env, c)
+	}
+	// ghost state that the postconditions speak about is changed by the callee
+	for _, g := range sortedKeys(c.st.ghost) {
+		if con.Extern {
+			break // assumed contracts only read ghost state; hooks are what change it
+		}
+		for _, en := range con.Ensures {
+			if containsWord(en.Src, g) {
+				c.st.ghost[g] = e.freshGhost(g, c.st.ghost[g], c.st)
+				break
+			}
+		}
 	}
 	// results
 	var res Val
@@ -775,7 +795,10 @@ func (e *Eng) applyContract(con *Contract, fi *FuncInfo, name string, recv *Val,
 		env["result"] = res
 	}
 	post := e.calleePkgCtx(con, fi, c, env, pre)
-	for _, en := range con.Ensures {
+	for k, en := range con.Ensures {
+		if fi != nil && e.u.knownFailing[funcLabel(fi)+"/"+e.clauseName("ensures", k, en)] {
+			continue // a postcondition recorded as a known finding does not hold: callers must not rely on it
+		}
 		e.assumeGen(c, e.specBool(en.Expr, post))
 	}
 	return res
